@@ -45,7 +45,7 @@ def observable(result):
                     pass
                 else:
                     out.append("accept %d %d %d %d %d" % (sid, now, exp, retries, ok))
-            elif k in ("reject", "sendRaised", "apiRaised", "deadwritePartial", "envNet", "lost_ran"):
+            elif k in ("reject", "sendRaised", "apiRaised", "apiCancel", "deadwritePartial", "envNet", "lost_ran"):
                 pass
             elif k in ("apiOpen", "apiClose", "apiCloseDone", "apiReset", "attempt", "refused", "heal"):
                 out.append("%s %d" % (k, e[-1]))
